@@ -9,9 +9,10 @@
    real scheduler; that part of C13 is sampled by the stress harness (harness/vdrv_threads.c) and labelled as
    such in the evidence.
 
-   baseline = the protocol of /repo HEAD (29b4a13: fixes 1b1aba3, 97f9e93, 29b4a13 applied);
+   baseline = the protocol of /repo HEAD (18c25b5: fixes 1b1aba3, 97f9e93, 29b4a13, 86ddb5d, 74169c1 applied);
    *_before_fix_refuted = regression witnesses for the protocol before those commits;
-   *_refuted without "before_fix" = OPEN findings of HEAD. *)
+   *_refuted without "before_fix" = OPEN findings of HEAD (F13 threads never reclaimed, F11 cursor burn-in; model only:
+   palette lock inversion, cursor change does not wake). *)
 From Coq Require Import List Bool Arith.
 From LV Require Import Session.ThreadsModel Session.ThreadsProofs.
 Import ListNotations.
@@ -48,19 +49,20 @@ Theorem C13_lock_order_palette_refuted :
   In (P_upd 3 0, P_upd 3 0) lock_table_palette /\ In (P_send 3 0, P_send 3 0) lock_table_palette.
 Proof. exact palette_table_inversion. Qed.
 
-(* --- the teardown under threads, HEAD's protocol, ONE client: for every schedule of {application:
-   rfbShutdownServer then rfbScreenCleanup (which tears down every client it still finds listed), clientInput,
-   clientOutput, another rfbCloseClient caller} rfbClientConnectionGone runs at most once, exactly once when the input
-   thread has ended, and exactly once (record unlinked) when rfbScreenCleanup is through *)
-Theorem C13_gone_once_threaded_one_client : forall sched,
-  let s := run sh_st (sh_step true) sched sh_init in
+(* --- the teardown under threads, HEAD's protocol, ONE client, in each of three situations of clientOutput (waiting / an
+   update pending: it sends / client on hold: it polls), select() in clientInput may fail for good: for every schedule of
+   {application: rfbShutdownServer then rfbScreenCleanup (which tears down every client it still finds listed), clientInput,
+   clientOutput, another rfbCloseClient caller} rfbClientConnectionGone runs at most once, exactly once when the input thread has
+   ended, and exactly once (record unlinked) when rfbScreenCleanup is through *)
+Theorem C13_gone_once_threaded_one_client : forall s0 sched, In s0 sh_inits ->
+  let s := run sh_st (sh_step true) sched s0 in
   sh_gone s <= 1 /\ (sh_pcI s = SH_IN_DONE -> sh_gone s = 1) /\
   (sh_pcA s = SH_APP_DONE -> sh_gone s = 1 /\ sh_inlist s = false).
 Proof. exact gone_once_threaded. Qed.
 
 Example C13_gone_once_threaded_nonvacuous :
-  let s := run sh_st (sh_step true) (concat (repeat [0;1;2;3] 12)) sh_init in
-  sh_pcA s = SH_APP_DONE /\ sh_pcI s = SH_IN_DONE /\ sh_gone s = 1.
+  let s := run sh_st (sh_step true) ([2;2;2;2;2;2] ++ concat (repeat [0;1;2;3] 24)) sh_init_pending in
+  sh_pcA s = SH_APP_DONE /\ sh_pcI s = SH_IN_DONE /\ sh_gone s = 1 /\ sh_pend s = false.
 Proof. exact gone_once_nonvacuous. Qed.
 
 (* what it rests on (not a finding): without the join, rfbScreenCleanup and the client thread both tear the client down *)
@@ -68,23 +70,30 @@ Theorem C13_gone_twice_without_join_one_client :
   sh_gone (run sh_st (sh_step_cfg cfg_nojoin) sh_nojoin_witness sh_init) = 2.
 Proof. exact gone_twice_without_join. Qed.
 
-(* --- shutdown terminates, HEAD's protocol (1b1aba3: rfbCloseClient sets state = RFB_SHUTDOWN under updateMutex
-   before the signal, clientOutput re-tests it after LOCK), ONE client, no update pending, select() never fails:
-   after any schedule the system is finished or some thread can move, and a fixed round-robin continuation
-   finishes the shutdown.  Four threads (with a second closer) ... *)
-Theorem C13_shutdown_terminates_one_client : forall sched,
-  let s := run sh_st (sh_step true) sched sh_init in
+(* --- shutdown terminates, HEAD's protocol (1b1aba3: rfbCloseClient sets state = RFB_SHUTDOWN under updateMutex before the
+   signal, clientOutput re-tests it after LOCK; 86ddb5d: EINTR is retried and clientInput closes the client itself when it
+   leaves its loop otherwise), ONE client, the three situations above: after any schedule the system is finished or some
+   thread can move, and a fixed round-robin continuation finishes the shutdown.  Four threads (with a second closer) ... *)
+Theorem C13_shutdown_terminates_one_client : forall s0 sched, In s0 sh_inits ->
+  let s := run sh_st (sh_step true) sched s0 in
   (sh_final s = true \/ exists t, t < 4 /\ enabled sh_st (sh_step true) t s = true) /\
   sh_final (run sh_st (sh_step true) sh_finishing s) = true.
-Proof. intros sched. split; [apply shutdown_never_stuck_repaired | apply shutdown_can_always_finish_repaired]. Qed.
+Proof. intros s0 sched H. split; [apply shutdown_never_stuck_repaired | apply shutdown_can_always_finish_repaired]; exact H. Qed.
 
-(* ... and three threads: rfbShutdownServer, clientInput, clientOutput alone (no helper whose moves could satisfy
-   the "some thread can move" disjunct) *)
-Theorem C13_shutdown_terminates_three_threads_one_client : forall sched,
-  let s := run sh_st (sh_step3 cfg_head) sched sh_init in
+(* ... three threads: rfbShutdownServer, clientInput, clientOutput alone (no helper whose moves could satisfy
+   the "some thread can move" disjunct) ... *)
+Theorem C13_shutdown_terminates_three_threads_one_client : forall s0 sched, In s0 sh_inits ->
+  let s := run sh_st (sh_step3 cfg_head) sched s0 in
   (sh_final3 s = true \/ exists t, t < 3 /\ enabled sh_st (sh_step3 cfg_head) t s = true) /\
   sh_final3 (run sh_st (sh_step3 cfg_head) sh3_finishing s) = true.
 Proof. exact shutdown_terminates_three_threads. Qed.
+
+(* ... and the client's two threads ALONE: when select() fails for good they finish by themselves with exactly one teardown *)
+Theorem C13_select_failure_client_threads_finish_one_client : forall s0 sched, In s0 sh_inits ->
+  let s := run sh_st (sh_step12 cfg_head) sched s0 in
+  (sh_final12 s = true \/ exists t, t < 3 /\ enabled sh_st (sh_step12 cfg_head) t s = true) /\
+  sh_final12 (run sh_st (sh_step12 cfg_head) sh12_finishing s) = true.
+Proof. exact select_failure_client_threads_finish. Qed.
 
 (* regression witness, protocol BEFORE 1b1aba3: schedule [sh_witness] reaches an unfinished state in which
    no thread can move (lost wake-up) - finding C13-N1 (fixed) *)
@@ -93,28 +102,14 @@ Theorem C13_shutdown_terminates_before_fix_refuted :
   sh_final s = false /\ forall t, enabled sh_st (sh_step false) t s = false.
 Proof. exact shutdown_lost_wakeup. Qed.
 
-(* OPEN, finding C13-N4: select() fails in clientInput (EINTR: a signal handler of the application ran on that
-   thread; main.c:588-593).  The loop is left without state = RFB_SHUTDOWN: input blocked in THREAD_JOIN, output in
-   WAIT, no teardown; neither of the client's threads can move *)
-Theorem C13_input_exit_without_shutdown_refuted :
-  let s := run sh_st (sh_step_cfg cfg_selfail) sh_selfail_witness sh_init in
+(* regression witness, protocol BEFORE 86ddb5d - finding C13-N4 (fixed): select() fails in clientInput (EINTR was not retried).
+   The loop is left without state = RFB_SHUTDOWN: input blocked in THREAD_JOIN, output in WAIT, no teardown; neither of
+   the client's threads can move *)
+Theorem C13_input_exit_without_shutdown_before_fix_refuted :
+  let s := run sh_st (sh_step_cfg cfg_before_86ddb5d) sh_selfail_witness sh_init in
   sh_shut s = false /\ sh_gone s = 0 /\ sh_pcI s = 4 /\ sh_wait s = true /\
-  enabled sh_st (sh_step_cfg cfg_selfail) 1 s = false /\ enabled sh_st (sh_step_cfg cfg_selfail) 2 s = false.
+  enabled sh_st (sh_step_cfg cfg_before_86ddb5d) 1 s = false /\ enabled sh_st (sh_step_cfg cfg_before_86ddb5d) 2 s = false.
 Proof. exact input_leaves_loop_without_shutdown. Qed.
-
-(* with notes/fix_C13_4.diff (NOT in /repo): the client's two threads alone always finish with exactly one teardown,
-   and the four-thread system never gets stuck *)
-Theorem C13_input_exit_fixed_one_client : forall sched,
-  let s := run sh_st (sh_step12 cfg_selfail_fixed) sched sh_init in
-  (sh_final12 s = true \/ exists t, t < 3 /\ enabled sh_st (sh_step12 cfg_selfail_fixed) t s = true) /\
-  sh_final12 (run sh_st (sh_step12 cfg_selfail_fixed) sh12_finishing s) = true.
-Proof. exact input_exit_fixed_client_threads_finish. Qed.
-
-Theorem C13_input_exit_fixed_shutdown_terminates_one_client : forall sched,
-  let s := run sh_st (sh_step_cfg cfg_selfail_fixed) sched sh_init in
-  (sh_final s = true \/ exists t, t < 4 /\ enabled sh_st (sh_step_cfg cfg_selfail_fixed) t s = true) /\
-  sh_final (run sh_st (sh_step_cfg cfg_selfail_fixed) sh_finishing s) = true /\ sh_gone s <= 1.
-Proof. exact input_exit_fixed_shutdown_terminates. Qed.
 
 (* --- no use after free through the client iterator, HEAD's protocol (97f9e93: the iterator takes its reference while
    holding rfbClientListMutex; rfbClientConnectionGone waits for refCount == 0 and unlinks under the same mutex).
@@ -152,12 +147,42 @@ Proof. exact iterator_walk_needs_the_wait. Qed.
 Theorem C13_no_use_after_free_iter_before_fix_refuted : it_uaf (run it_st (it_step false) it_witness it_init) = true.
 Proof. exact iterator_use_after_free. Qed.
 
-(* --- threads reclaimed: OPEN, finding C13-F13.  This is BOOKKEEPING of a fact measured on the library (the counting
-   model joins only in ThShutdown by construction), not an independent proof: after n connect/disconnect cycles n ended
-   client threads have never been joined, and rfbShutdownServer does not join them either *)
-Theorem C13_threads_reclaimed_refuted_by_construction : forall n,
-  th_zombie (th_run (th_cycles n)) = n /\ th_zombie (th_run (th_cycles n ++ [ThShutdown])) = n.
-Proof. intros n. split; [apply threads_never_joined | apply shutdown_does_not_reclaim_them]. Qed.
+(* --- threads reclaimed: OPEN, finding C13-F13.  HEAD's protocol, ONE client: the connection ends by itself before
+   rfbShutdownServer looks - the thread has exited and nobody ever joins or detaches it *)
+Theorem C13_client_thread_reclaimed_refuted :
+  let s := run rc_st (rc_step false false) rc_leak_witness rc_init in
+  rc_final s = true /\ rc_exited s = true /\ rc_reclaimed s = 0.
+Proof. exact client_thread_never_reclaimed. Qed.
+
+(* with notes/fix_C13_6.diff (NOT in /repo: rfbShutdownServer claims the join in the client record while it holds its
+   reference; the client thread reads the claim after it has unlinked the record and detaches itself when unclaimed):
+   for EVERY schedule - the connection ends at any moment relative to the shutdown - the thread is never joined after it
+   detached itself, the freed record is never touched by the application, the thread is reclaimed at most once and exactly
+   once when both are through, nobody gets stuck, and the round-robin continuation gets both through *)
+Theorem C13_client_thread_reclaimed_exactly_once_fixed_one_client : forall sched,
+  let s := run rc_st (rc_step true false) sched rc_init in
+  rc_bad s = false /\ rc_reclaimed s <= 1 /\ (rc_final s = true -> rc_reclaimed s = 1) /\
+  (rc_final s = true \/ exists t, t < 2 /\ enabled rc_st (rc_step true false) t s = true) /\
+  (let z := run rc_st (rc_step true false) rc_finishing s in rc_final z = true /\ rc_reclaimed z = 1 /\ rc_bad z = false).
+Proof. exact client_thread_reclaimed_exactly_once. Qed.
+
+Example C13_client_thread_reclaimed_nonvacuous :
+  (let s := run rc_st (rc_step true false) [0;0;0;0; 1;1;1;1;1; 0] rc_init in rc_final s = true /\ rc_joined s = 1 /\ rc_detached s = false) /\
+  (let s := run rc_st (rc_step true false) [1;1;1;1;1; 0] rc_init in rc_final s = true /\ rc_joined s = 0 /\ rc_detached s = true).
+Proof. exact client_thread_reclaimed_nonvacuous. Qed.
+
+(* not a finding: what the previous theorem rests on - a thread that reads the claim BEFORE its unlink can be joined after detach *)
+Theorem C13_claim_must_be_read_after_the_unlink :
+  rc_bad (run rc_st (rc_step true true) rc_early_witness rc_init) = true.
+Proof. exact claim_must_be_read_after_the_unlink. Qed.
+
+(* the COUNTER behind the correspondence run's prediction (bookkeeping, true by construction, justified by the two theorems above;
+   the fact itself is measured): after n connect/disconnect cycles HEAD has n never-reclaimed threads and rfbShutdownServer
+   does not reclaim them; with the self-detach none is left *)
+Theorem C13_threads_reclaimed_count_by_construction : forall n,
+  th_zombie (th_run false (th_cycles n)) = n /\ th_zombie (th_run false (th_cycles n ++ [ThShutdown])) = n /\
+  th_zombie (th_run true (th_cycles n ++ [ThShutdown])) = 0.
+Proof. intros n. split; [apply threads_never_joined | split; [apply shutdown_does_not_reclaim_them | apply threads_reclaimed_when_detached]]. Qed.
 
 (* --- cursor bracket: OPEN, finding C13-F11, two output threads (per-screen save buffer, per-client brackets) *)
 Theorem C13_cursor_bracket_atomic_refuted :
@@ -236,34 +261,27 @@ Theorem C13_subtract_after_send_loses_mark :
   sk_pcA s = 2 /\ sk_pcO s = 5 /\ sk_client s = false.
 Proof. exact subtract_after_send_loses_mark. Qed.
 
-(* --- rfbNewFramebuffer: OPEN, finding C13-N5.  It locks every open client's sendMutex over one iterator pass and
-   unlocks over a SECOND pass (main.c:1126-1130, 1202-1229).  ONE client record.
-   (a) the peer of an idle client disconnects in between: the client is closed and unlinked, the second pass skips it,
-       rfbNewFramebuffer returns holding its sendMutex, the client's own thread blocks for ever in
-       rfbClientConnectionGone (LOCK(cl->sendMutex), rfbserver.c:669): not a cycle, nobody can move *)
-Theorem C13_newfb_leaves_sendmutex_locked_refuted :
+(* --- rfbNewFramebuffer, ONE client record.  HEAD (74169c1 = notes/fix_C13_5.diff: the locking pass keeps a reference on, and
+   remembers, every client it locks; exactly those are unlocked after the per-client pass): for EVERY schedule of both modes -
+   the client goes (mode 0) or a connection arrives (mode 1) at any moment - no mutex misuse, nobody stuck, and the round-robin
+   continuation ends with rfbNewFramebuffer returned and the mutex free *)
+Theorem C13_newfb_balanced_one_client : forall m sched, m < 2 ->
+  let s := run nf_st (nf_step true m) sched (nf_init m) in
+  nf_ok s = true /\ (nf_final s = true \/ exists t, t < 2 /\ enabled nf_st (nf_step true m) t s = true) /\
+  (let z := run nf_st (nf_step true m) nf_finishing s in nf_final z = true /\ nf_send z = 0 /\ nf_badunlock z = false).
+Proof. exact newfb_fixed_balanced. Qed.
+
+(* regression witnesses, code BEFORE 74169c1 - finding C13-N5 (fixed): sendMutex locked over one iterator pass, unlocked over a
+   second one.  (a) the peer of an idle client disconnects in between: the client is closed and unlinked, the second pass
+   skips it, rfbNewFramebuffer returns holding its sendMutex, the client's own thread blocks for ever in
+   rfbClientConnectionGone (LOCK(cl->sendMutex)): not a cycle, nobody can move *)
+Theorem C13_newfb_leaves_sendmutex_locked_before_fix_refuted :
   let s := run nf_st (nf_step false 0) nf_gone_witness (nf_init 0) in
   nf_pcA s = NF_APP_DONE /\ nf_send s = 1 /\ nf_pcB s = 3 /\ nf_freed s = false /\ nf_ok s = false /\
   forall t, enabled nf_st (nf_step false 0) t s = false.
 Proof. exact newfb_leaves_sendmutex_locked. Qed.
 
 (* (b) a connection accepted in between gets an UNLOCK of a sendMutex that was never locked *)
-Theorem C13_newfb_unlocks_unlocked_mutex_refuted :
+Theorem C13_newfb_unlocks_unlocked_mutex_before_fix_refuted :
   nf_badunlock (run nf_st (nf_step false 1) nf_new_witness (nf_init 1)) = true.
 Proof. exact newfb_unlocks_unlocked_mutex. Qed.
-
-(* what does hold: when the client neither goes nor arrives while rfbNewFramebuffer runs, the bracket is balanced and
-   nobody gets stuck (both modes, every schedule of the serialised system) *)
-Theorem C13_newfb_balanced_partial : forall m sched, m < 2 ->
-  let s := run nf_st (nf_step_serial m) sched (nf_init m) in
-  nf_ok s = true /\ (nf_final s = true \/ exists t, t < 2 /\ enabled nf_st (nf_step_serial m) t s = true).
-Proof. exact newfb_balanced_when_serialised. Qed.
-
-(* with notes/fix_C13_5.diff (NOT in /repo: pass 1 keeps a reference on, and remembers, every client it locks; exactly
-   those are unlocked after pass 3): for EVERY schedule of both modes - the client goes or arrives at any moment - no
-   mutex misuse, nobody stuck, and the round-robin continuation ends with rfbNewFramebuffer returned and the mutex free *)
-Theorem C13_newfb_fixed_balanced_one_client : forall m sched, m < 2 ->
-  let s := run nf_st (nf_step true m) sched (nf_init m) in
-  nf_ok s = true /\ (nf_final s = true \/ exists t, t < 2 /\ enabled nf_st (nf_step true m) t s = true) /\
-  (let z := run nf_st (nf_step true m) nf_finishing s in nf_final z = true /\ nf_send z = 0 /\ nf_badunlock z = false).
-Proof. exact newfb_fixed_balanced. Qed.
